@@ -194,6 +194,15 @@ def gen_dag(rnd, *, cycle=None, pull_prob=0.25, parallel_prob=0.25, offsets=True
                 comps[j]["nin"] += 1
         else:
             links.append(dict(src=[f"c{i}", 0], dst=[f"c{j}", dst_in], chain=chain))
+    if not cycle:
+        # look-ahead links: a negative fixed delay asks the source for data *ahead* of the consumer's time
+        # (only where the consumer does not pull initially: at connect nothing is published ahead yet)
+        byname = {c["name"]: c for c in comps}
+        for ln in links:
+            dst = byname[ln["dst"][0]]
+            if dst["type"] == "time" and not dst.get("initial_pull", True) and ln["src"][0].startswith("c") and rnd.random() < 0.35 \
+                    and not ln.get("stateless_only") and not any(a[0] in ("avg", "sum", "dpull", "dpush") for a in ln["chain"]):
+                ln["chain"].append(["dfix", -rnd.choice([1, 2, 3])])
     trunks = {}
     if rnd.random() < trunk_prob:
         # fan-out below an adapter: links leaving the same time-component output share a trunk of
@@ -227,6 +236,7 @@ def gen_dag(rnd, *, cycle=None, pull_prob=0.25, parallel_prob=0.25, offsets=True
         for c in comps:
             if c["type"] == "time" and c["nout"] and rnd.random() < sparse:
                 c["publish_every"] = rnd.choice([2, 3])  # publishes only every 2nd/3rd step
+                c["bad_records"] = rnd.random() < 0.5  # ... and tries to publish a malformed record in between (refused)
     if shipped:
         for c in comps:
             if c["type"] == "time" and rnd.random() < shipped and "publish_every" not in c:
